@@ -1079,6 +1079,7 @@ fn suffix_threshold<'a>(
 
 fn group_by_suffix(
     ctx: &GroupCtx<'_>,
+    prefix_len: FileLen,
     groups: Vec<FileGroup<FileInfo>>,
 ) -> Vec<FileGroup<FileInfo>> {
     let mut groups = groups;
@@ -1089,8 +1090,11 @@ fn group_by_suffix(
         .max_suffix_size
         .unwrap_or_else(|| suffix_len(&ctx.devices, flat_iter(&groups)));
     let suffix_threshold = suffix_threshold(&ctx.devices, flat_iter(&groups));
-    let pre_filter =
-        |g: &FileGroup<FileInfo>| g.file_len >= suffix_threshold && g.unique_count() > 1;
+    // Files not longer than the prefix were already hashed as a whole. Hashing them again
+    // would give the same hash, and the two hashes would cancel each other when combined.
+    let pre_filter = |g: &FileGroup<FileInfo>| {
+        g.file_len >= suffix_threshold && g.file_len > prefix_len && g.unique_count() > 1
+    };
     let file_count = unique_file_count(groups.iter().filter(|g| pre_filter(g)));
     let progress = ctx.log.progress_bar(
         &ctx.phases.format(Phase::GroupBySuffix),
@@ -1248,7 +1252,7 @@ pub fn group_files(config: &GroupConfig, log: &dyn Log) -> Result<Vec<FileGroup<
                 .max_prefix_size
                 .unwrap_or_else(|| prefix_len(&ctx.devices, flat_iter(&size_groups_pruned)));
             let prefix_groups = group_by_prefix(&ctx, prefix_len, size_groups_pruned);
-            let suffix_groups = group_by_suffix(&ctx, prefix_groups);
+            let suffix_groups = group_by_suffix(&ctx, prefix_len, prefix_groups);
             if !ctx.config.skip_content_hash {
                 group_by_contents(&ctx, prefix_len, suffix_groups)
             } else {
